@@ -38,10 +38,11 @@ TOKENS = [
     "multipart/form-data", "boundary=", "boundary=x", 'boundary="x"', "application/json", "application/x-www-form-urlencoded", "charset=", "charset=utf-16", "charset=\xff",
     "en-US", "en_us", "*;q=0", "de;q=x",
     "for=1.2.3.4", "1.2.3.4", "1.2.3.4, 5.6.7.8", "unknown",
+    'profile="http://a/b"', ';level="1/2"', "text;", "/;", ";/",
 ]
 
 SEED_HEADERS = {
-    "HTTP_ACCEPT": ["text/html,application/xhtml+xml;q=0.9,*/*;q=0.8", "*/*", "text/*;level=1"],
+    "HTTP_ACCEPT": ["text/html,application/xhtml+xml;q=0.9,*/*;q=0.8", "*/*", "text/*;level=1", 'application/ld+json;profile="http://www.w3.org/ns/anno.jsonld", text;level="1/2";q=0.3', "html, text;a=/, /;q=0.1"],
     "HTTP_ACCEPT_CHARSET": ["utf-8, iso-8859-1;q=0.5", "*"],
     "HTTP_ACCEPT_ENCODING": ["gzip, deflate, br", "identity;q=0"],
     "HTTP_ACCEPT_LANGUAGE": ["en-US,en;q=0.9,de;q=0.8", "*"],
